@@ -20,6 +20,10 @@ R14e injected node ids are fresh for the whole run: runtime records, instance ma
      injected snippets with the same ids shadow each other (the later snippet's node is marked completed by the earlier
      one and never runs). The id generator of the inject parser (the class constructed for it in MethodManager) keeps a
      counter that, outside __init__, is only ever moved on by a non-zero constant (`-= 1` / `+= 1`) - never re-assigned.
+R14f commands survive the interpreter swap of a live edit: Engine.on_interpreter_reset builds a new CommandManager for the new
+     interpreter. The requests that are executing (and those queued) in the old manager must be handed to the new one - the
+     way the pending Restart request already is - or be cancelled and finalized there; dropped, a UOD command started by
+     injected code (or by the method, or by the user) is never ticked again, never finalized and stays registered.
 """
 from __future__ import annotations
 
@@ -34,6 +38,11 @@ MM = "openpectus.engine.method_manager:MethodManager"
 
 
 def run(ctx) -> None:
+    _run_main(ctx)
+    _r14f(ctx)
+
+
+def _run_main(ctx) -> None:
     prog, res = ctx.prog, ctx.res
     for r, d in [("R14a", "registered interrupt nodes are findable by the merge"), ("R14b", "inject_node leaves method progress untouched"),
                  ("R14c", "injected code advances only while the run progresses")]:
@@ -220,3 +229,24 @@ def run(ctx) -> None:
                              "are marked completed by the earlier snippet - the later snippet never runs")
     if n_w == 0:
         raise AnchorError(f"{gen_cls.name}: no counter update found")
+
+
+def _r14f(ctx):
+    ctx.rule("R14f", "executing commands are carried over (or finalized) when a live edit swaps the interpreter")
+    prog = ctx.prog
+    f = prog.func("openpectus.engine.engine:Engine.on_interpreter_reset")
+    ctx.analysed(f)
+    ctors = [c for c in walk_no_nested(f.node) if isinstance(c, ast.Call) and call_attr(c) == "CommandManager" or (
+        isinstance(c, ast.Call) and isinstance(c.func, ast.Name) and c.func.id == "CommandManager")]
+    if not ctors:
+        raise AnchorError("Engine.on_interpreter_reset: construction of the new CommandManager not found")
+    txt = norm(f.node)
+    carried = any(x in txt for x in ("cmd_executing", "cmd_queue", "currently_executing"))
+    settled = any(isinstance(c, ast.Call) and call_attr(c) in ("cancel_commands", "finalize_commands", "cancel_all_commands") for c in walk_no_nested(f.node))
+    inst = "Engine.on_interpreter_reset: the old manager's executing/queued requests reach the new manager or are finalized"
+    if carried or settled:
+        ctx.ok("R14f", inst)
+    else:
+        ctx.fail("R14f", f, ctors[0], inst, "the new CommandManager only receives the pending Restart request: after a live edit (merge) every command "
+                 "that was executing is orphaned - a UOD command started by injected code is never ticked again, never completes, is "
+                 "never finalized and stays in uod.command_instances (also across Stop); a timed Pause/Hold never ends")
